@@ -230,6 +230,25 @@ def r3_tail_says(cx):
           "the compressor records self.compression, the value write_cluster_data dispatches on")
 
 
+def r3b_raw_copy_reads_from_start(cx):
+    """the verbatim copy takes the input from the start of its range (file-range inputs rewind to their origin)"""
+    before = len(cx.obs)
+    c01.r4_input_file(cx)
+    for o in cx.obs[before:]:
+        o.rule = "R3"
+        o.key = "R3/input/" + o.key.split("/", 1)[1]
+    F = cx.F
+    for imp in ("std::fs::File", "std::io::Cursor<T>", "std::io::BufWriter<T>"):
+        fs = [f for f in F.fns if f.get("item_name") == "copy" and f.get("impl_trait", "").endswith("OutStream") and f.get("impl_self") == imp]
+        if len(fs) != 1:
+            raise AnchorLost("OutStream::copy for %s" % imp)
+        b = F.body(fs[0])
+        gfs = b.calls(r"InputReader>::get_file_source$")
+        cp = b.calls(r"std::io::copy::<")
+        ok = len(gfs) == 1 and len(cp) == 2 and all(b.dominates(gfs[0][0], i) for i, _ in cp)
+        cx.ob("R3", "R3/copy@%s" % imp, ok, fs[0], "OutStream::copy for %s copies the reader obtained from get_file_source() (file inputs: rewound range, others: the reader itself) with io::copy" % imp)
+
+
 def r4_dedup(cx):
     F = cx.F
     f = F.one(impl_self="CachedContentAdder", item="cache_content", closure=False)
@@ -294,5 +313,6 @@ RULES = [
     ("R1", r1_decision_table, 6),
     ("R2", r2_flag_carried, 6),
     ("R3", r3_tail_says, 4),
+    ("R3", r3b_raw_copy_reads_from_start, 6),
     ("R4", r4_dedup, 3),
 ]
